@@ -12,6 +12,15 @@ BASE_NOTE = (
 
 # property -> (category, text, technique, design_ref, extra note)
 CLAIMS = {
+    "C13": (
+        "proof",
+        "Contracts on the real LoopExpression._slice (visited items == seq[from:to] per the reference slice semantics, reported length, continue index, no exception), "
+        "ForLoop.__next__/__getitem__ (all forloop helpers as functions of the visit count) and TableRow.__init__/__next__ (row/column structure via the representation invariant) "
+        "are discharged for all lengths, limits, offsets and column counts >= 1.",
+        "contract-based deductive verification (ast->SMT VCs on real source, z3/cvc5) + bounded contract check",
+        "DESIGN.md section 4 C13",
+        "",
+    ),
     "C25": (
         "proof",
         "Per-filter contracts (postconditions taken from the property statement) are discharged for all argument values on the real filter kernels "
